@@ -46,7 +46,7 @@ TABLE = {
         rule="a Receive Maximum is in force (vacancy reported)",
         nontrivial=lambda n: n["obs"]["vacancy"] >= 0 or (_op(n) == "recv" and _kind(n) == "publish"), profile="qos"),
     "C13": dict(
-        quick=["alias_send", "alias_auto", "alias_srv", "alias_dup"], thorough=["alias_send", "alias_auto", "alias_srv", "in_qos2_alias", "mps", "alias_dup"],
+        quick=["alias_send", "alias_auto", "alias_srv", "alias_dup", "alias_lru"], thorough=["alias_send", "alias_auto", "alias_srv", "in_qos2_alias", "mps", "alias_dup", "alias_lru"],
         rule="a PUBLISH is sent or received on a v5.0 connection with topic aliases in play", quick_edges=45000,
         nontrivial=lambda n: _kind(n) == "publish" and (n["call"]["pkt"]["alias"] != 0 or any(e["ev"] == "send" and e["pkt"]["alias"] for e in n["out"])),
         profile="alias"),
